@@ -168,6 +168,26 @@ def int_universe(*envs):
   return sorted(seen)
 
 
+class _Missing(object):
+  def __repr__(self): return "<absent>"
+_MISSING = _Missing()
+
+
+class TotalDict(dict):
+  """dict read the way the specs read maps: total (an absent key reads as one fixed token)."""
+  def __missing__(self, key): return _MISSING
+
+
+def totalize(v, depth=0):
+  import types
+  if depth > 8: return v
+  if isinstance(v, TotalDict): return v
+  if isinstance(v, dict): return TotalDict((k, totalize(x, depth + 1)) for k, x in v.items())
+  if isinstance(v, types.SimpleNamespace):
+    return types.SimpleNamespace(**{k: totalize(x, depth + 1) for k, x in vars(v).items()})
+  return v
+
+
 class SpecEnv(object):
   """Namespace for evaluating the clauses of one contract on one concrete case."""
   def __init__(self, contract, env, old_env):
@@ -175,7 +195,7 @@ class SpecEnv(object):
     self.old_g = {"__builtins__": __builtins__}
     uni = int_universe(env, old_env)
     for g, e in ((self.g, env), (self.old_g, old_env)):
-      g.update(e)
+      g.update({k: totalize(v) for k, v in e.items()})
       g["_universe"] = uni
       for name, text in contract.defs.items():
         if callable(text):
